@@ -299,7 +299,33 @@ func enumC17(c *lib.Ctx, yield func(c17Case) bool) {
 					continue
 				}
 				cfgs = append(cfgs, simx.ChainCfg{Stages: st, Memory: "ideal", NumMem: 1, PortBuf: v.buf, Lat: v.lat, MSHR: v.mshr, Eager: eager})
+				if len(st) == 1 && eager {
+					// direct-mapped: a second line evicts the first, so k=2 reaches
+					// "dirty victim still in the write buffer when the flush starts"
+					cfgs = append(cfgs, simx.ChainCfg{Stages: st, Memory: "ideal", NumMem: 1, PortBuf: v.buf, Lat: v.lat + 1, MSHR: v.mshr, Eager: eager, Ways: 1})
+				}
 			}
+		}
+	}
+	// queued victim write-backs: direct-mapped cache over a slow memory with one
+	// eviction in flight at a time; k=3 so that two evictions overlap; filters
+	// that select nothing are the interesting ones (nothing dirty left / the
+	// evicted line itself)
+	slow := simx.ChainCfg{Stages: []string{"wb"}, Memory: "ideal", NumMem: 1, PortBuf: 4, Lat: 1, MSHR: 2, Eager: true, Ways: 1, SlowEvict: true}
+	wr := []simx.MemOp{}
+	for _, l := range lines {
+		wr = append(wr, simx.MemOp{Write: true, Addr: l, Size: simx.LineSize}, simx.MemOp{Addr: l, Size: simx.LineSize})
+	}
+	fs := c17Filters(lines)
+	for _, f := range []flushFilter{fs[0], fs[1], fs[2]} {
+		ok := enumScripts(wr, 3, func(ops []simx.MemOp) bool {
+			if !ops[0].Write {
+				return true // nothing dirty to evict
+			}
+			return yield(c17Case{Cfg: slow, Ops: ops, Filter: f, Cut: -1})
+		})
+		if !ok {
+			return
 		}
 	}
 	k := lib.Pick(c, 2, 3)
@@ -319,7 +345,7 @@ func init() {
 	lib.Register(&lib.Check{
 		ID:    "C17",
 		Level: "exploration",
-		Rule: "exhaustive small-scope simulation with fault-point style cuts: write-back cache hierarchies (one and two levels, 2 sets x 2 ways, 2 geometry/latency settings, serial and eager issue) over ideal memory x every script of k (quick 2, thorough 3) operations over {write line, write 4 B, masked line write, read line, read 4 B} x 3 same-set lines x 6 flush filters {none, [A], [A,B], pid 1, pid 2, [A]+pid 1} x EVERY distinct event time of the uncontrolled run as the moment the control sequence starts (Drain, Flush(filter) per cache top-down, then Enable bottom-up) while traffic continues. " +
+		Rule: "exhaustive small-scope simulation with fault-point style cuts: write-back cache hierarchies (one and two levels, 2 sets x 2 ways plus direct-mapped single caches so that evictions are reachable with 2 lines, 2 geometry/latency settings, serial and eager issue) over ideal memory x every script of k (quick 2, thorough 3) operations over {write line, write 4 B, masked line write, read line, read 4 B} x 3 same-set lines x 6 flush filters {none, [A], [A,B], pid 1, pid 2, [A]+pid 1} x EVERY distinct event time of the uncontrolled run as the moment the control sequence starts (Drain, Flush(filter) per cache top-down, then Enable bottom-up) while traffic continues. " +
 			"Oracle: every control step acknowledged with success; per cache, directory before (at drain ack) vs after (at flush ack): every line still valid, matching dirty lines clean, non-matching dirty lines still dirty; after the last flush the backing bytes of every covered line equal the most recent acknowledged write (or the single in-flight write to that byte); the run then completes and satisfies the C16 flat-memory oracle. A case = (assembly, script, filter); cut_points_explored counts the runs.",
 		Sharded:     true,
 		MinOutcomes: 6,
